@@ -246,3 +246,22 @@ Definition some_scope_spec (nodes : list node) (bound nested_bound : dict val) (
   let ts := all_gate_targets nodes in
   let choices := if Nat.leb (length ts) 6 then sublists ts else [[]; ts] in
   existsb (fun Ts => spec_eqb (input_spec_s Ts nodes bound nested_bound eps sel) real) choices.
+
+(* validate_inputs under a per-target choice of the selection scope, and "some choice explains the observed verdict" *)
+Definition validate_s (Ts : list name) (nodes : list node) (bound nested_bound : dict val) (eps sel : option (list name))
+           (pv : dict val) : vres :=
+  let s := input_spec_s Ts nodes bound nested_bound eps sel in
+  let provided := dkeys (is_bound s) ++ dkeys pv in
+  let cyc := fold_left (fun acc grp => match acc with
+                                       | VOk => check_group (is_entry s) grp provided
+                                       | bad => bad end) (scc_groups nodes (is_entry s)) VOk in
+  match cyc with
+  | VOk => if subset (is_required s) provided then VOk else VMissing
+  | bad => bad
+  end.
+
+Definition some_scope_vres (nodes : list node) (bound nested_bound : dict val) (eps sel : option (list name)) (pv : dict val)
+           (real : vres) : bool :=
+  let ts := all_gate_targets nodes in
+  let choices := if Nat.leb (length ts) 6 then sublists ts else [[]; ts] in
+  existsb (fun Ts => vres_eqb (validate_s Ts nodes bound nested_bound eps sel pv) real) choices.
